@@ -105,6 +105,14 @@ def fire(dialog, ev, scale=0.25):
         raise AssertionError(ev)
 
 
+def quiet_canvas(cv):
+    """matplotlib's own artist-picking callback (30 ms per click on a fresh axes) is not part of the dialog"""
+    for attr in ("button_pick_id", "scroll_pick_id"):
+        cid = getattr(cv, attr, None)
+        if cid is not None:
+            cv.mpl_disconnect(cid)
+
+
 def new_dialog(algo, plot, freqlim=None):
     """The state __init__ sets up, without entering the (non-existent) main loop."""
     sfp = install()
@@ -122,6 +130,7 @@ def new_dialog(algo, plot, freqlim=None):
     else:
         d.freq_ind = []
     d._initialize_gui()
+    quiet_canvas(d.fig.canvas)
     if plot in ("SSI", "pLSCF"):
         d.plot_stab(plot)
     else:
@@ -139,7 +148,9 @@ def scripted(events, scale=0.25, errors=None):
 
     def wrapped(self):
         cur["d"] = self
-        return orig(self)
+        r = orig(self)
+        quiet_canvas(self.fig.canvas)
+        return r
 
     def script():
         d = cur["d"]
